@@ -274,6 +274,9 @@ U("print_opt", replay="replay/print_layout.c", entry="h_print_opt", func="cfg_op
   carriers=["carriers/print_carriers.c"], defs={"quick": ["-DCFGV_CARRY_NPRINT", "-DCFGV_CARRY_PRINTCFG"]},
   label="bounded(14 literal option shapes: type x list/title/annotation flags x <= 3 values; callback / annotation present or absent; depth 0..2)", props=["C19", "C05", "C15", "C16", "C02"], cost=60,
   trusted=PRTRUST, harness="harness/print.c")
+U("print_comment", replay="replay/print_layout.c", entry="h_print_comment", func="cfg_opt_print_pff_indent", cbmc=unw(68) + NOOOM, remove=["cfg_opt_nprint_var", "cfg_print_pff_indent"],
+  carriers=["carriers/print_carriers.c"], defs={"quick": ["-DCFGV_CARRY_NPRINT", "-DCFGV_CARRY_PRINTCFG"]},
+  label="bounded(annotation <= 3 bytes over all bytes, depth 0..2)", props=["C15", "C05", "C19", "C02"], cost=10, trusted=PRTRUST, harness="harness/print.c")
 U("print_cfg", replay="replay/print_layout.c", entry="h_print_cfg", func="cfg_print_pff_indent", cbmc=unw(68) + NOOOM, remove=["cfg_opt_print_pff_indent"], carriers=["carriers/print_carriers.c"],
   defs={"quick": ["-DCFGV_CARRY_PRINTOPT"]}, label="bounded(<= 3 options; every verdict of own / inherited filter; any depth)", props=["C19", "C16", "C02"], cost=20, trusted=PRTRUST, harness="harness/print.c")
 U("print_indent", replay="replay/print_layout.c", entry="h_indent", func="cfg_indent", cbmc=unw(68) + NOOOM, label="bounded(depth 0..24)", props=["C19", "C05", "C02"], cost=10, trusted=PRTRUST,
